@@ -279,6 +279,19 @@ func RenderPos(in *Intent, indent string) (string, []posRec) {
 			body = true
 			r.mark(1, "ep "+appKey(a.Name)+" <- "+ep.Name)
 			r.epKey = appKey(a.Name) + " <- " + ep.Name
+			if ep.Kind == "sub" {
+				name := subName(ep)
+				r.pos[len(r.pos)-1].Key = "ep " + appKey(a.Name) + " <- " + name
+				r.epKey = appKey(a.Name) + " <- " + name
+				h := appKey(ep.Source) + " -> " + ep.Event + renderMetaInline(ep.Meta) + ":"
+				if len(ep.Stmts) == 0 {
+					r.line(1, h+" ...")
+				} else {
+					r.line(1, h)
+					r.stmts(2, ep.Stmts, a)
+				}
+				continue
+			}
 			if ep.Kind == "event" {
 				r.epKey = ""
 				h := "<-> " + ep.Name + renderMetaInline(ep.Meta) + ":"
@@ -462,6 +475,11 @@ func FactsFromIntent(in *Intent) *Facts {
 			if af.Eps == nil {
 				af.Eps = map[string]*EpF{}
 			}
+			if ep.Kind == "sub" {
+				ef.Source = ep.Source
+				af.Eps[subName(ep)] = ef
+				continue
+			}
 			af.Eps[ep.Name] = ef
 		}
 		for _, n := range a.Rest {
@@ -469,5 +487,48 @@ func FactsFromIntent(in *Intent) *Facts {
 		}
 		f.Apps[appKey(a.Name)] = af
 	}
+	// A subscription 'P -> E' in application S creates event E in P (if P does not declare it) and
+	// appends a call back to S's subscriber endpoint, in walk order (lang-spec: pubsub).
+	for _, a := range in.Apps {
+		for _, ep := range a.Eps {
+			if ep.Kind != "sub" {
+				continue
+			}
+			pf := f.Apps[appKey(ep.Source)]
+			if pf == nil {
+				continue
+			}
+			if pf.Eps == nil {
+				pf.Eps = map[string]*EpF{}
+			}
+			ev := pf.Eps[ep.Event]
+			if ev == nil {
+				ev = &EpF{Pubsub: true}
+				pf.Eps[ep.Event] = ev
+			}
+			ev.Stmts = append(ev.Stmts, &Stmt{Kind: "call", Target: a.Name, Endpoint: subName(ep)})
+		}
+	}
+	// A mixin merges the types of the (abstract) mixed-in application into the mixing one
+	// (docs/docs/lang/mixin.md); a type the mixing application declares itself wins.
+	for _, a := range in.Apps {
+		af := f.Apps[appKey(a.Name)]
+		for _, mx := range a.Mixins {
+			src := f.Apps[appKey(mx)]
+			if src == nil {
+				continue
+			}
+			for tn, tf := range src.Types {
+				if af.Types == nil {
+					af.Types = map[string]*TypeF{}
+				}
+				if _, has := af.Types[tn]; !has {
+					af.Types[tn] = tf
+				}
+			}
+		}
+	}
 	return f
 }
+
+func subName(ep *Endpoint) string { return appKey(ep.Source) + " -> " + ep.Event }
